@@ -19,12 +19,15 @@ for d in sorted(glob.glob('/verif/seeded/*/')):
     meta = json.load(open(d + 'meta.json'))
     prop = meta['property']
     rc, out = sh(f'git apply --check {d}patch.diff', '/repo')
+    threeway = False
+    if rc != 0:
+        rc, out = sh(f'git apply --3way --check {d}patch.diff', '/repo'); threeway = rc == 0
     if rc != 0:
         meta['check']['stale'] = 'patch does not apply to the current tree'
         rows.append((name, 'STALE', ''))
         json.dump(meta, open(d + 'meta.json', 'w'), indent=1)
         continue
-    sh(f'git apply {d}patch.diff', '/repo')
+    sh(f'git apply {"--3way " if threeway else ""}{d}patch.diff', '/repo')
     others = []
     try:
         rc_chk, out_chk = sh(f'{RUNNER} {prop} quick', '/verif')
@@ -35,7 +38,7 @@ for d in sorted(glob.glob('/verif/seeded/*/')):
                 if rc2 == 1:
                     others.append({'property': p2, 'finding_keys': re.findall(r'\[([A-Z-]+:.*?)\] ', out2)[:3]})
     finally:
-        sh('git checkout -q -- .', '/repo')
+        sh('git reset -q --hard HEAD && git clean -fdq', '/repo')
         sh('git clean -fdq', '/repo')
     keys = re.findall(r'\[([A-Z-]+:.*?)\] ', out_chk)
     detected = rc_chk == 1 and ('VIOLATION property=' + prop) in out_chk
